@@ -847,6 +847,11 @@ class SymEx:
                         nxt.append((s2, parts + [Const(v.value)]))
                     else:
                         for s3, x in self.ev(v.value, s2, func):
+                            if isinstance(x, New) and v.conversion in (-1, 115):
+                                # {obj} / {obj!s}: the text its __str__ gives
+                                r = self.builtin('str', [x], {}, s3, v.value)
+                                if r is not None and len(r) == 1 and isinstance(r[0][1], Const):
+                                    s3, x = r[0]
                             nxt.append((s3, parts + [x]))
                 states = nxt
             out = []
@@ -1064,7 +1069,7 @@ class SymEx:
                 return Const(b[1].name)
         if isinstance(b, (ListV, DictV, Const)):
             return ('method', b, name)
-        if isinstance(b, Opaque) and b.text in ('itertools', 'functools', 'dict', 'collections'):
+        if isinstance(b, Opaque) and b.text in ('itertools', 'functools', 'dict', 'collections', 're'):
             return Opaque('%s.%s' % (b.text, name))
         if isinstance(b, Opaque) and b.text == 'itertools.chain' and name == 'from_iterable':
             return Opaque('itertools.chain.from_iterable')
@@ -1214,6 +1219,33 @@ class SymEx:
                     flat.extend(self.as_sequence(x))
                 return [(st, ListV(flat))]
             return [(st, CallV('chain.from_iterable', args, node=e))]
+        if isinstance(f, Opaque) and f.text in ('re.fullmatch', 're.match', 're.search') and len(args) >= 2 and \
+                isinstance(args[0], Const) and isinstance(args[1], Const) and isinstance(args[0].v, str) and isinstance(args[1].v, str):
+            import re as _re
+            try:
+                m = getattr(_re, f.text[3:])(args[0].v, args[1].v)
+            except _re.error:
+                return [(st, CallV('raise', [Opaque('re.error')]))]
+            return [(st, Const(True) if m else Const(None))]
+        if isinstance(f, Opaque) and f.text == 'itertools.groupby' and args and self.as_sequence(args[0]) is not None:
+            keyf = kw.get('key') or (args[1] if len(args) > 1 else None)
+            groups = []
+            cur = st
+            for item in self.as_sequence(args[0]):
+                if keyf is None:
+                    k = item
+                else:
+                    res = self.apply(e, keyf, [item], {}, cur, func)
+                    if len(res) != 1:
+                        return [(st, CallV('groupby', args, node=e))]
+                    cur, k = res[0]
+                if groups and values_equal(groups[-1][0], k) is True:
+                    groups[-1][1].items.append(item)
+                elif groups and values_equal(groups[-1][0], k) is None:
+                    return [(st, CallV('groupby', args, node=e))]
+                else:
+                    groups.append((k, ListV([item])))
+            return [(cur, ListV([ListV([k, g], True) for k, g in groups]))]
         if isinstance(f, Opaque) and f.text == 'collections.Counter' and (not args or self.as_sequence(args[0]) is not None):
             d = DictV(missing=Const(0))
             for k in (self.as_sequence(args[0]) if args else []):
